@@ -99,31 +99,74 @@ def run(ctx):
             continue
         sp, nw = splices[0], news[0]
         names = ["start_byte", "old_end_byte", "new_end_byte", "start_position", "old_end_position", "new_end_position"]
-        # points
+        # points: each Point handed to InputEdit::new is MEASURED on the buffer in the right state.  Shape-independent formulation
+        # over the transitive provenance of the argument: every read of the spliced buffer that the value depends on happens
+        # before the splice (start, old_end) resp. after it (new_end) — a new_end that resumes counting from a position measured
+        # before the splice depends on a pre-splice read and is reported
+        def okey(o):
+            return (o.kind, o.ref if isinstance(o.ref, (int, str)) else id(o.ref))
+        sroots = {okey(o) for o in deep_roots(prog, fn, sp.args[0], TRANSPARENT | {"deref", "deref_mut", "as_mut_vec", "as_bytes", "as_slice"})}
+
+        def reads_buffer(c):
+            for a in c.args:
+                if a[0] == "k":
+                    continue
+                r = {okey(o) for o in deep_roots(prog, fn, a, TRANSPARENT | {"deref", "deref_mut", "as_mut_vec", "as_bytes", "as_slice", "index", "iter", "into_iter"})}
+                if r & sroots:
+                    return True
+            return False
+
+        def provenance(op):
+            seen, out, work = set(), [], [op]
+            while work:
+                x = work.pop()
+                if x[0] == "k":
+                    continue
+                for o in fn.trace_operand(x):
+                    key = (o.kind, o.ref if isinstance(o.ref, (int, str)) else id(o.ref))
+                    if key in seen:
+                        continue
+                    seen.add(key)
+                    if o.kind == "call":
+                        out.append(o.ref)
+                        work.extend(a for a in o.ref.args if a[0] != "k")
+                    elif o.kind == "agg":
+                        work.extend(a for a in o.ref[2][2] if a[0] != "k")
+                    elif o.kind == "op":
+                        rv = o.ref[2]
+                        work.extend(a for a in rv[2:] if isinstance(a, list) and a and a[0] in ("c", "m"))
+                    elif o.kind == "local":
+                        for dfn in fn.defs.get(o.ref, []):
+                            if dfn[0] == "assign" and dfn[3][0] == "use":
+                                work.append(dfn[3][1])
+            return out
+        buffer_chain = {id(c) for c in provenance(sp.args[0])}  # how the buffer itself is obtained (as_mut_vec…): not a measurement
         for idx, before in ((3, True), (4, True), (5, False)):
-            roots = deep_roots(prog, fn, nw.args[idx])
-            calls = [o.ref for o in roots if o.kind == "call"]
-            if len(calls) != 1:
-                ctx.ob("R2", "%s/%s" % (tag, names[idx]), False, "cannot identify the call computing %s" % names[idx], where=fn.loc(nw.line))
-                continue
-            pc = calls[0]
+            prov = provenance(nw.args[idx])
+            reads = [c for c in prov if c is not sp and id(c) not in buffer_chain and reads_buffer(c)]
+            pre = [c for c in reads if fn.dominates(c.bb, sp.bb) and c.bb != sp.bb]
+            post = [c for c in reads if fn.dominates(sp.bb, c.bb) and c.bb != sp.bb]
+            other = [c for c in reads if c not in pre and c not in post]
             if before:
-                ok = fn.dominates(pc.bb, sp.bb) and pc.bb != sp.bb
-                msg = "%s computed by %s %s the splice" % (names[idx], pc.best, "before" if ok else "NOT before")
+                ok = bool(pre) and not post and not other
+                msg = "%s depends on %d read(s) of the buffer, all before the splice" % (names[idx], len(pre)) if ok else \
+                    "%s depends on reads of the buffer that are not all before the splice (before %d, after %d, unordered %d): it is measured on the wrong text" % (names[idx], len(pre), len(post), len(other))
             else:
-                ok = fn.dominates(sp.bb, pc.bb) and pc.bb != sp.bb
-                msg = "%s computed by %s %s the splice" % (names[idx], pc.best, "after" if ok else "NOT after")
-            # the buffer argument must be the same buffer that is spliced
-            broots = {(o.kind, o.ref if o.kind != "call" else id(o.ref)) for o in deep_roots(prog, fn, pc.args[0])}
-            sroots = {(o.kind, o.ref if o.kind != "call" else id(o.ref)) for o in deep_roots(prog, fn, sp.args[0])}
-            same = bool(broots & sroots)
-            ctx.ob("R2", "%s/%s" % (tag, names[idx]), ok and same, msg + ("" if same else "; but it reads a different buffer than the one spliced"), where=fn.loc(pc.line))
-            # offset argument of the point call must be the matching byte offset
-            want = names[idx - 3]
-            o_point = byte_expr(prog, fn, pc.args[1])
-            o_byte = byte_expr(prog, fn, nw.args[idx - 3])
-            ctx.ob("R2", "%s/%s offset" % (tag, names[idx]), o_point == o_byte and o_point is not None,
-                   "%s is computed at offset %s; %s passed to InputEdit is %s" % (names[idx], o_point, want, o_byte), where=fn.loc(pc.line))
+                ok = bool(post) and not pre and not other
+                msg = "%s depends on %d read(s) of the buffer, all after the splice" % (names[idx], len(post)) if ok else \
+                    "%s depends on a position measured BEFORE the splice (%s): rows/columns counted on the old text are carried over to the new text — wrong whenever the replaced or inserted text contains a line break" % (
+                        names[idx], sorted({c.name for c in pre + other}) or "no read after the splice")
+            ctx.ob("R2", "%s/%s" % (tag, names[idx]), ok, msg, where=fn.loc(nw.line))
+            # offset argument of the point call must be the matching byte offset (when the point is one call of a (buffer, offset) function)
+            roots = deep_roots(prog, fn, nw.args[idx])
+            calls = [o.ref for o in roots if o.kind == "call" and len(o.ref.args) == 2 and reads_buffer(o.ref)]
+            if len(calls) == 1:
+                pc = calls[0]
+                want = names[idx - 3]
+                o_point = byte_expr(prog, fn, pc.args[1])
+                o_byte = byte_expr(prog, fn, nw.args[idx - 3])
+                ctx.ob("R2", "%s/%s offset" % (tag, names[idx]), o_point == o_byte and o_point is not None,
+                       "%s is computed at offset %s; %s passed to InputEdit is %s" % (names[idx], o_point, want, o_byte), where=fn.loc(pc.line))
         # bytes
         exp = [("position",), ("position", "deleted_length"), ("position", "inserted_text")]
         for idx in range(3):
